@@ -269,7 +269,18 @@ def build_steps(rng, recs, delim, queries, slot=0, p_incremental=0.35):
                                    _q(slot, "parse_uri", newu + "1"), _q(slot, "is_uri", newu + "1")]
         header = rej + header
     if not recs or (len(recs) < 2 and not (recs[0]["ps"] or recs[0]["us"])) or rng.random() >= p_incremental:
-        return [{"op": "init", "dst": slot, "records": recs, "delim": d}] + header + queries, "init"
+        if recs and rng.random() < 0.15:
+            # the caller builds a second converter from the very same list object and keeps curating that one
+            twin = [{"op": "init", "dst": slot, "records": recs, "delim": d},
+                    {"op": "init", "dst": slot + 50, "records": recs, "delim": d, "same_list_as": slot},
+                    # (a new record only: the Record *objects* of the list are shared by both converters by design,
+                    #  so a merge into one of them would legitimately show in the other)
+                    {"op": "add_prefix", "c": slot + 50, "p": cps("twinp"), "u": cps("http://twin.example/"), "ps": [], "us": []}]
+            extra = [_q(slot, "standardize_prefix", "twinp"), _q(slot, "expand_pair", "twinp", "1"),
+                     _q(slot, "standardize_uri", "http://twin.example/1")]
+            return twin + header + list(queries) + extra, "init+twin-from-same-list"
+        return [{"op": "init", "dst": slot, "records": recs, "delim": d,
+                 "container": rng.choice(["list", "list", "tuple", "iter", "generator", "dict_values"])}] + header + queries, "init"
     thinned, later = split_history(rng, recs)
     rest = [r for kind, r in later if kind == "add"]
     first = thinned
